@@ -74,6 +74,15 @@ def forEach {σ ρ α : Type} (xs : σ → List α) (bind : σ → α → σ) (b
 def copyAt (dst : Bytes) (lo : Nat) (src : Bytes) : Bytes :=
   dst.take lo ++ src.take (dst.length - lo) ++ dst.drop (lo + (src.take (dst.length - lo)).length)
 
+/-- the `k` low-order bytes of `v`, least significant first -/
+def leB : Nat → Nat → Bytes
+  | 0, _ => []
+  | k + 1, v => UInt8.ofNat (v % 256) :: leB k (v / 256)
+
+/-- `binary.LittleEndian.PutUint32/64(b, v)` for `k ≤ len(b)`: the first `k` bytes of `b` become the little-endian bytes of `v`
+    (TRUSTED rendering of encoding/binary: a bounds check on `b[k-1]`, then one store per byte) -/
+def putLE (b : Bytes) (k : Nat) (v : Nat) : Bytes := leB k v ++ b.drop k
+
 /-- `p[i]` -/
 @[inline] def rd (p : Bytes) (i : Nat) : BitVec 8 := (p.getD i 0).toBitVec
 /-- the value stored by `dest[i] = b` -/
